@@ -6,7 +6,7 @@ import json
 VERIF = os.path.dirname(os.path.dirname(os.path.abspath(__file__)))
 
 TRUST_RX = [
-    ('assume_specification', re.compile(r'assume_specification\s*(?:<[^\[]*>)?\s*\[\s*([^\]]+)\]')),
+    ('assume_specification', re.compile(r'assume_specification.*?\[\s*(.+?)\s*\]\s*\(')),
     ('axiom', re.compile(r'\baxiom\s+fn\s+(\w+)')),
     ('external_body', re.compile(r'external_body')),
     ('admit', re.compile(r'\badmit\s*\(\s*\)')),
@@ -74,14 +74,15 @@ def write(pid, tier, seed, results, units, fns, violations, others, undecided, v
     n_und = sum(1 for o in obligations if o['unit'] in und_units)
     verified = sum(r.get('verified', 0) for (u, t), r in results.items() if t == 'main')
     smt_ms = sum(r.get('smt_ms', 0) for (u, t), r in results.items() if t == 'main')
-    trusted = []
+    trusted_map = {}
     rewrites = []
     hashes = {}
     unit_info = []
     for (u, t), r in sorted(results.items()):
         if t != 'main':
             continue
-        trusted += ['[%s] %s' % (u, x) for x in scan_trusted(r.get('path', ''))]
+        for x in scan_trusted(r.get('path', '')):
+            trusted_map.setdefault(x, []).append(u)
         a = r.get('asm') or {}
         for rw in a.get('rewrites', []):
             rewrites.append(dict(unit=u, **rw))
@@ -92,6 +93,15 @@ def write(pid, tier, seed, results, units, fns, violations, others, undecided, v
                 per_fn[name.split('::', 1)[-1]] = dict(ok=d['ok'], ms=d['ms'], rlimit=d['rlimit'])
         unit_info.append(dict(unit=u, status=r['status'], verus_verified=r.get('verified'), verus_errors=r.get('errors'), smt_ms=r.get('smt_ms'),
                               wall_s=round(r.get('wall_s', 0), 2), result_reused_for_identical_assembled_text=bool(r.get('cache_hit')), verify_wall_s=round(r.get('verify_wall_s', r.get('wall_s', 0)), 2), cmd=r.get('cmd'), defines=r.get('asm', {}).get('defines'), functions=per_fn))
+    trusted = ['%s   [units: %s]' % (x, ','.join(us)) for x, us in sorted(trusted_map.items())]
+    seen_rw = set()
+    uniq_rw = []
+    for rw in rewrites:
+        key = (rw['kind'], rw.get('where'), rw.get('old'), rw.get('text'))
+        if key not in seen_rw:
+            seen_rw.add(key)
+            uniq_rw.append(rw)
+    rewrites = uniq_rw
     rw_kinds = {}
     for rw in rewrites:
         rw_kinds[rw['kind']] = rw_kinds.get(rw['kind'], 0) + 1
